@@ -14,8 +14,8 @@ from .types import Chunks2d
 
 
 def _find_common_type(array_types, scalar_types):
-    # TODO: don't use find_common_type as it's being removed from numpy
-    return np.find_common_type(array_types, scalar_types)
+    # np.find_common_type was removed in numpy 2
+    return np.result_type(*array_types, *scalar_types)
 
 
 class BlockAssembler:
